@@ -162,8 +162,16 @@ func Verif_C03_dialled_conn_peer_finishes_first() {
 		return qc, nil
 	})
 	verifapi.FixRandom("ephem003")
-	conn, err := s.DialContext(context.Background(), "B", "svc", nil)
+	// the usual helper idiom: a context that only bounds the DIAL and is released when the helper returns
+	dctx, dcancel := context.WithCancel(context.Background())
+	conn, err := s.DialContext(dctx, "B", "svc", nil)
 	verifapi.Assert("dial-ok", err == nil && conn != nil)
+	if verifapi.Bool() {
+		dcancel()
+		verifapi.Quiesce()
+		verifapi.Cover("dial-context-released-after-the-dial")
+		verifapi.Assert("releasing-the-dial-context-does-not-end-an-established-stream", verifapi.All(qctx.Err() == nil, *st.closed == 0))
+	}
 	data := verifapi.BytesUpTo(2)
 	wn, werr := conn.Write(data)
 	verifapi.Assert("written-bytes-reach-the-stream-unchanged", verifapi.All(werr == nil, wn == len(data), verifapi.SameBytes((*st.wrote)[1:], data)))
@@ -190,5 +198,6 @@ func Verif_C03_dialled_conn_peer_finishes_first() {
 	verifapi.Quiesce()
 	verifapi.Assert("connection-close-ends-the-connection", qctx.Err() != nil)
 	s.cancelFunc()
+	dcancel()
 	verifapi.Quiesce()
 }
